@@ -104,7 +104,9 @@ func Explore(c Config) *Stats {
 		if rp.Run != c.Name {
 			return st
 		}
+		rt.SlotSet(0, c.Name, rp.Ops)
 		o1, o2 := safeRun(c.Run, rp.Ops), safeRun(c.Run, rp.Ops)
+		rt.SlotClear(0)
 		fmt.Printf("REPLAY %s %v\n", c.Name, c.names(rp.Ops))
 		if o1.Verdict != o2.Verdict || o1.Msg != o2.Msg {
 			rt.HarnessError("replay of %v is not deterministic: %q vs %q", c.names(rp.Ops), o1.Msg, o2.Msg)
@@ -154,6 +156,8 @@ func Explore(c Config) *Stats {
 				go func() {
 					defer wg.Done()
 					buf := make([]uint8, 0, depth)
+					slot := rt.NewSlot()
+					defer rt.SlotClear(slot)
 					for {
 						i := int(atomic.AddInt64(&idx, 1))
 						if i >= len(results) {
@@ -165,7 +169,9 @@ func Explore(c Config) *Stats {
 							continue
 						}
 						buf = append(append(buf[:0], h...), uint8(op))
+						rt.SlotSet(slot, c.Name, buf) // in-flight note for the supervisor (see rt/slots.go)
 						o := safeRun(c.Run, buf)
+						rt.SlotClear(slot)
 						r := res{verdict: o.Verdict, cut: o.Cut, finding: o.Finding, msg: o.Msg}
 						if o.Key != "" {
 							r.key, r.hasKey = hkey(o.Key), true
